@@ -53,6 +53,21 @@ fn main() {
                 let now = jvl::c15::HEARTBEAT.load(Ordering::Relaxed);
                 if now == last {
                     idle += 1;
+                    // C13 / C16 feed option prefixes and handlers that must be accepted or rejected: an input on
+                    // which the expansion does not come back (30 s here, 60 s again in a fresh process) is
+                    // neither - a violation with that input as the replay file
+                    if idle == 3 && (what == "C13" || what == "C16") {
+                        let (text, ci) = jvl::c15::CURRENT.lock().map(|c| c.clone()).unwrap_or_default();
+                        if !text.is_empty() {
+                            let path = jvl::evid::write_replay(&what, &serde_json::json!({"property": what, "engine": "L-c15", "input": text, "config": ci, "kind": "hang", "must_reject": false, "detail": "the expansion of this input does not terminate (30 s in the run, 60 s again in a fresh process): the input is neither accepted nor rejected", "seed": 0, "tier": "quick"}));
+                            let confirmed = std::env::current_exe().ok().and_then(|exe| std::process::Command::new(exe).arg("replay").arg(&path).stdout(std::process::Stdio::null()).stderr(std::process::Stdio::null()).status().ok()).map(|st| st.code() == Some(1)).unwrap_or(false);
+                            if confirmed {
+                                jvl::evid::print_violation(&what, &path);
+                                std::process::exit(1);
+                            }
+                            let _ = std::fs::remove_file(&path);
+                        }
+                    }
                     if idle >= 18 {
                         eprintln!("{}: no expansion finished for 180 s - the parser or generator seems to be stuck on an input (inconclusive)", what);
                         std::process::exit(2);
